@@ -462,8 +462,8 @@ func (p *parser) readIDL() (*IDL, error) {
 		Errors:  make([]*Error, 0),
 	}
 
-	p.advance()
 	idl.Doc = p.lastComment.String()
+	p.advance()
 	idl.Name = p.readInterfaceName()
 	if idl.Name == "" {
 		return nil, fmt.Errorf("interface name")
